@@ -9,6 +9,7 @@ import (
 	"math/rand"
 	"os"
 	"runtime"
+	"runtime/debug"
 	"strconv"
 	"sync"
 	"sync/atomic"
@@ -85,9 +86,32 @@ func SeedOf(base uint64, prop string, i int) uint64 {
 	return sim.Mix(sim.Mix(base, h.Sum64()), uint64(i))
 }
 
+// PoolEpoch: real sync.Pools (the library's own, or ones a change introduces)
+// are process state the sim pool does not cover. Collections are switched
+// off and only happen at execution boundaries - in a batch before every run
+// whose index is a multiple of PoolEpoch, in replays and shrinking before
+// every execution - and two of them empty every sync.Pool. On the single P
+// the driver gives every worker a sync.Pool is then a deterministic LIFO
+// whose content is a function of the runs since the last epoch boundary
+// (history replays start at such a boundary).
+const PoolEpoch = 16
+
+// Fresh says whether Exec starts from empty sync.Pools.
+var Fresh = true
+
+// FreshPools empties every sync.Pool of the process.
+func FreshPools() {
+	debug.SetGCPercent(-1)
+	runtime.GC()
+	runtime.GC()
+}
+
 // Exec runs one property run on the given tape.
 func Exec(spec *props.Spec, t *sim.Tape, tier string, detail bool) *eng.Result {
 	r := eng.NewRun(spec.ID, t, tier, detail)
+	if Fresh && spec.Engine != "multi" { // engine multi does the same before each of its executions
+		FreshPools()
+	}
 	r.Guard(func() {
 		// Globals every run depends on, all derived from the tape.
 		// Engine multi leaves the global math/rand source unseeded: a seeded
@@ -165,7 +189,9 @@ func runBatch(spec *props.Spec, j *Job) *BatchOut {
 		curStart.Store(time.Now().UnixNano())
 		curIdx.Store(int64(i))
 		detail := len(out.Samples) < j.Samples
+		Fresh = i%PoolEpoch == 0 || i == j.From
 		res := Exec(spec, sim.NewTapeCap(seed, tapeCap(spec)), j.Tier, detail)
+		Fresh = true
 		curIdx.Store(-1)
 		outMu.Lock()
 		out.Executed++
